@@ -2,7 +2,9 @@
 import random
 from typing import Iterator
 
-from core import Case, Prop, SelfCheckFailure
+import json
+
+from core import Case, Prop, SelfCheckFailure, InfraError, run_driver
 from gen import hx, unhx, pool, rbytes
 
 from spacepackets.ccsds.spacepacket import PacketId, PacketSeqCtrl, PacketType, SequenceFlags, SpacePacketHeader
@@ -14,7 +16,6 @@ from spacepackets.ecss.pus_1_verification import (
     Service1Tm, VerificationParams, FailureNotice, UnpackParams, Subservice,
 )
 from spacepackets.ecss.tm import PusTm
-from spacepackets.crc import CRC16_CCITT_FUNC
 from props.c03 import _tm_fields
 
 
@@ -329,9 +330,36 @@ def rand_tc(rng):
             "ack": rng.randint(0, 15), "version": rng.choice([0, 0, 1, 5, 7])}
 
 
+def crc16(data: bytes) -> int:
+    """CRC-16/CCITT-FALSE, bit-serial (independent of the package under test)"""
+    reg = 0xFFFF
+    for x in data:
+        reg ^= x << 8
+        for _ in range(8):
+            reg = ((reg << 1) ^ 0x1021) & 0xFFFF if reg & 0x8000 else (reg << 1) & 0xFFFF
+    return reg
+
+
 def refit_crc(raw: bytes) -> bytes:
     body = raw[:-2]
-    return body + CRC16_CCITT_FUNC(body).to_bytes(2, "big")
+    return body + crc16(body).to_bytes(2, "big")
+
+
+def model_pack(ops):
+    """octets of reports / telemetry packets as the *model* packs them (so that the decode stream
+    does not depend on the encoder under test); one driver call for the whole batch"""
+    res = run_driver([json.dumps(o) for o in ops])
+    out = []
+    for o, r in zip(ops, res):
+        if "ok" not in r:
+            raise InfraError(f"model refuses a generated packet: {o} -> {r}")
+        out.append(unhx(r["ok"]["raw"]))
+    return out
+
+
+def tm_args(sub, ts: bytes, src: bytes, apid, service=1, count=0, version=0, time_ref=0, dest_id=0):
+    return {"op": "tm_pack", "service": service, "subservice": sub, "timestamp": hx(ts), "data": hx(src), "apid": apid,
+            "count": count, "msg_counter": 0, "time_ref": time_ref, "dest_id": dest_id, "version": version}
 
 
 def mutate_s1(rng, a):
@@ -555,7 +583,7 @@ class C15(Prop):
                         yield Case({"op": "s1_vp_pack", "params": params_for(rng, sub, sw, ew, exact=exact)}, "valid", tag="vp-pack")
         # ---------------------------------------------------------------- service 1 reports
         # all subservices x width pairs x timestamp lengths, through the constructor and the helpers
-        reps = 3 if thorough else 1
+        reps = 4 if thorough else 2
         for sub in range(1, 9):
             for sw in WIDTHS:
                 for ew in WIDTHS:
@@ -563,7 +591,7 @@ class C15(Prop):
                         for _ in range(reps):
                             a = s1_args(rng, sub, sw, ew, ts)
                             yield Case({"op": "s1_pack", **a}, "valid", tag=f"sub{sub}")
-                        if ts % 3 == 0 or thorough:
+                        if ts % 2 == 0 or thorough:
                             p = params_for(rng, sub, sw, ew)
                             yield Case({"op": "s1_create", "subservice": sub, "apid": rng.randint(0, 2047), "tc": rand_tc(rng),
                                         "step_id": p["step_id"], "failure": p["failure"], "timestamp": hx(rbytes(rng, ts))},
@@ -598,15 +626,38 @@ class C15(Prop):
             import copy
             b = copy.deepcopy(a) if rng.random() < 0.35 else mutate_s1(rng, a)
             yield Case({"op": "s1_eq", "a": a, "b": b}, "valid", tag="s1-eq")
-        # decode with suffix, with other widths, truncations, substitutions
-        for i in range(3000 if thorough else 400):
+        # same source-data octets, different field boundaries: only the parameter comparison tells them apart
+        for _ in range(300 if thorough else 60):
+            sub = rng.choice([2, 4, 6, 8])
+            a = s1_args(rng, sub, 1, 1)
+            import copy
+            b = copy.deepcopy(a)
+            pa, pb = a["params"], b["params"]
+            x = rbytes(rng, 3)
+            if sub == 6 and rng.random() < 0.6:
+                pa["step_id"], pa["failure"]["code"] = {"pfc": 16, "val": x[0] << 8 | x[1]}, {"pfc": 8, "val": x[2]}
+                pb["step_id"], pb["failure"]["code"] = {"pfc": 8, "val": x[0]}, {"pfc": 16, "val": x[1] << 8 | x[2]}
+            else:
+                tail = unhx(pa["failure"]["data"])
+                pa["failure"] = {"code": {"pfc": 16, "val": x[0] << 8 | x[1]}, "data": hx(x[2:] + tail)}
+                pb["failure"] = {"code": {"pfc": 8, "val": x[0]}, "data": hx(x[1:] + tail)}
+            yield Case({"op": "s1_eq", "a": a, "b": b}, "valid", tag="s1-eq-same-octets")
+        # decode with suffix, with other widths, truncations, substitutions (octets packed by the model)
+        n_dec = 3000 if thorough else 400
+        dec_args = []
+        for i in range(n_dec):
             sub = rng.randint(1, 8) if i >= 8 else i + 1
-            sw, ew = rng.choice(WIDTHS), rng.choice(WIDTHS)
-            a = s1_args(rng, sub, sw, ew)
+            dec_args.append(s1_args(rng, sub, rng.choice(WIDTHS), rng.choice(WIDTHS)))
+        dec_raw = model_pack([{"op": "s1_pack", **a} for a in dec_args])
+        short_ops, short_meta = [], []
+        for i, (a, raw) in enumerate(zip(dec_args, dec_raw)):
+            sub = a["subservice"]
+            p = a["params"]
+            sw = p["step_id"]["pfc"] // 8 if p["step_id"] else rng.choice(WIDTHS)
+            ew = p["failure"]["code"]["pfc"] // 8 if p["failure"] else rng.choice(WIDTHS)
             ts = len(a["timestamp"]) // 2
-            raw = unhx(OPS["s1_pack"](a)["raw"])
             sfx = rng.choice([b"", rbytes(rng, 1), rbytes(rng, 9)])
-            # widths the report does not use may be anything the decoder accepts
+            # widths the report does not use may be anything
             sw_d = sw if sub in (5, 6) else rng.choice(WIDTHS + [0, 3, 200])
             ew_d = ew if sub % 2 == 0 else rng.choice(WIDTHS + [0, 3, 200])
             if sub in (2, 4, 8):
@@ -621,13 +672,12 @@ class C15(Prop):
                 for k in range(len(raw)):
                     yield Case({"op": "s1_unpack", "raw": hx(raw[:k]), "ts_len": ts, "step_bytes": sw, "err_bytes": ew}, "invalid", tag="truncation")
                 # truncated source data with a consistent length field and CRC
-                t0 = PusTm.unpack(raw, ts)
-                src = bytes(t0.source_data)
+                src = raw[13 + ts:-2]
                 for k in range(len(src)):
-                    t0.tm_data = src[:k]
+                    short_ops.append(tm_args(sub, unhx(a["timestamp"]), src[:k], a["apid"], count=a["count"], version=a["version"],
+                                             time_ref=a["time_ref"], dest_id=a["dest_id"]))
                     full = k >= 4 + (sw if sub in (5, 6) else 0) + (ew if sub % 2 == 0 else 0)
-                    yield Case({"op": "s1_unpack", "raw": hx(t0.pack()), "ts_len": ts, "step_bytes": sw, "err_bytes": ew},
-                               "valid" if full else "invalid", tag="short-source-data")
+                    short_meta.append((ts, sw, ew, full))
             if i % 4 == 0:
                 for sub2 in list(range(0, 11)) + [255]:
                     m = bytearray(raw)
@@ -641,6 +691,9 @@ class C15(Prop):
                     yield Case({"op": "s1_unpack", "raw": hx(bytes(m)), "ts_len": ts, "step_bytes": sw, "err_bytes": ew}, "invalid", tag="bit-flip")
                     if pos >= 13 + ts and pos < len(raw) - 2 and rng.random() < 0.5:
                         yield Case({"op": "s1_unpack", "raw": hx(refit_crc(bytes(m))), "ts_len": ts, "step_bytes": sw, "err_bytes": ew}, "any", tag="source-data-substitution")
+        for raw, (ts, sw, ew, full) in zip(model_pack(short_ops), short_meta):
+            yield Case({"op": "s1_unpack", "raw": hx(raw), "ts_len": ts, "step_bytes": sw, "err_bytes": ew},
+                       "valid" if full else "invalid", tag="short-source-data")
         # parameter sets that do not match the subservice are refused
         for sub in range(1, 9):
             for has_step, has_fail in shapes:
@@ -655,13 +708,15 @@ class C15(Prop):
                     p["failure"] = {"code": rand_pfe(rng, rng.choice(WIDTHS)), "data": hx(rbytes(rng, rng.choice([0, 1, 6])))} if has_fail else None
                     yield Case({"op": "s1_pack", **a}, "invalid", errclass=True, tag="params-mismatch")
         # arbitrary subservice values / short source data through the decoder
+        arb_ops, arb_meta = [], []
         for _ in range(4000 if thorough else 700):
             sub = rng.choice(list(range(0, 12)) + [rng.randint(0, 255)])
             ts = rng.choice([0, 7])
             src = rbytes(rng, rng.choice([0, 1, 3, 4, 5, 6, 7, 8, 9, 12, 13, 20]))
-            tm = PusTm(service=rng.choice([1, 1, 1, 17]), subservice=sub, timestamp=rbytes(rng, ts), source_data=src, apid=rng.randint(0, 2047))
-            yield Case({"op": rng.choice(["s1_unpack", "s1_from_tm"]), "raw": hx(tm.pack()), "ts_len": ts, "step_bytes": rng.choice(WIDTHS + [0, 3]),
-                        "err_bytes": rng.choice(WIDTHS + [0, 5])}, "any", tag="arbitrary-tm")
+            arb_ops.append(tm_args(sub, rbytes(rng, ts), src, rng.randint(0, 2047), service=rng.choice([1, 1, 1, 17])))
+            arb_meta.append((ts, rng.choice(["s1_unpack", "s1_from_tm"]), rng.choice(WIDTHS + [0, 3]), rng.choice(WIDTHS + [0, 5])))
+        for raw, (ts, op, sb, eb) in zip(model_pack(arb_ops), arb_meta):
+            yield Case({"op": op, "raw": hx(raw), "ts_len": ts, "step_bytes": sb, "err_bytes": eb}, "any", tag="arbitrary-tm")
         for _ in range(2000 if thorough else 200):
             yield Case({"op": "s1_unpack", "raw": hx(rbytes(rng, rng.choice([0, 5, 6, 13, 15, 22, 30]))), "ts_len": rng.choice([0, 7]),
                         "step_bytes": rng.choice(WIDTHS), "err_bytes": rng.choice(WIDTHS)}, "any", tag="random-octets")
